@@ -3,7 +3,7 @@
    Coq datatypes.  No Extract Constant. *)
 From Coq Require Import ExtrOcamlBasic.
 From Coq Require Import List ZArith QArith.
-From NR Require Import Model.TimeDep Model.Engine Model.Estimates Model.Search Model.Format Model.Units Model.SolverLoop Model.PlanUnitsBuild Model.NoMix.
+From NR Require Import Model.TimeDep Model.Engine Model.Estimates Model.Search Model.Format Model.Units Model.SolverLoop Model.PlanUnitsBuild Model.NoMix Model.Hints.
 
 Extraction "model.ml"
   TimeDep.td_empty TimeDep.set_expression TimeDep.value_at_value
@@ -18,4 +18,5 @@ Extraction "model.ml"
   Units.g_unplan_group Units.g_exec_units Units.g_unplan_vehicle Units.members_of Units.member_group Units.top_planned Units.is_group_id Units.g_format_solution
   SolverLoop.srun SolverLoop.arun SolverLoop.pinit SolverLoop.prun
   PlanUnitsBuild.all_sequences
-  NoMix.nm_history NoMix.nm_validate NoMix.item_of_delta NoMix.nm_contents.
+  NoMix.nm_history NoMix.nm_validate NoMix.item_of_delta NoMix.nm_contents
+  Hints.estimates_with_hints.
